@@ -236,6 +236,10 @@ func TestC10Stress(t *testing.T) {
 		if hasSortedWalk(h) {
 			cl.add("walksorted")
 		}
+		accessLabels(h, cl.labels)
+		if w.Tops == 1 {
+			cl.add("profile:single-subtree")
+		}
 		if v.partitioned {
 			partitioned++
 			cl.add("judged-on-subtree-projections")
